@@ -7,7 +7,7 @@ from . import client_common as CC
 def run(ctx):
     # an independent set of schedules (own work directory, seed stream shifted) so that the command stands alone
     ctx.seed_shift = 1
-    pr, stats, validated, dis, distinct, samples, exh = CC.run_prop(ctx, "C10", n_quick=120, n_thorough=3000)
+    pr, stats, validated, dis, distinct, samples, exh = CC.run_prop(ctx, "C10", n_quick=300, n_thorough=3000)
     return CC.finish(ctx, "C10", pr, stats, validated, dis, distinct, samples, exh,
                      "Direct oracle for C10 on the frames in the order the reference server decrypted them: msg_id mod 4 = 0, strictly "
                      "increasing, seconds part inside the run's clock window; odd seq_no iff not msgs_ack; seq_no non-decreasing; every server "
